@@ -15,6 +15,7 @@ import (
 	"runtime"
 	"strings"
 	"sync"
+	"sync/atomic"
 	"testing"
 
 	"github.com/semihalev/twig"
@@ -62,7 +63,10 @@ func c02World(t *rapid.T) (map[string]string, map[string]string, []string) {
 		"mmac":    "{% macro m(x) %}[m{{ x }}]{% endmacro %}{{ m(v) }}{{ _self.m(v + 1) }}",
 		"mbig":    "{% for i in range(1, 40) %}{{ i }}{{ v }};{% endfor %}" + strings.Repeat("pad ", 1100),
 	}
-	names = append(names, "mchild", "minc", "mmac", "mbig")
+	// escaping of values that contain every special character (per-call scratch state in a filter
+	// would be shared between goroutines)
+	mem["mesc"] = "{% for i in [1,2,3] %}{{ s|e }}{{ (s ~ i)|escape }}{% endfor %}{{ s|e|e }}"
+	names = append(names, "mchild", "minc", "mmac", "mbig", "mesc")
 	return fs, mem, names
 }
 
@@ -87,8 +91,15 @@ func copyMap(m map[string]string) map[string]string {
 	return out
 }
 
-func c02Do(e *twig.Engine, call C02Call) Res {
-	ctx := map[string]interface{}{"v": call.V}
+// c02Nonce numbers the runs of this process: the text NONCE inside generated identifiers is
+// replaced by a fresh number in every run, so that the names are new to the process each time
+// (the serial reference run would otherwise already have entered them into global tables).
+// The identifiers are undefined and print nothing: the expected output does not depend on it.
+var c02Nonce int64
+
+func c02Do(e *twig.Engine, call C02Call, nonce string) Res {
+	call.Src = strings.ReplaceAll(call.Src, "NONCE", nonce)
+	ctx := map[string]interface{}{"v": call.V, "s": fmt.Sprintf("<%d&\"'>%s", call.V, strings.Repeat("<&>", call.V))}
 	switch call.Op {
 	case "renderTo":
 		return renderTo(e, call.Name, ctx)
@@ -158,7 +169,7 @@ func runC02(c C02Case) (int, error) {
 				want[key{g, i}] = Res{Out: "\x00unchecked"}
 				continue
 			}
-			want[key{g, i}] = c02Do(c02Engine(c, root), call)
+			want[key{g, i}] = c02Do(c02Engine(c, root), call, "s")
 		}
 	}
 	if c.Procs > 0 {
@@ -171,6 +182,7 @@ func runC02(c C02Case) (int, error) {
 	overlaps := 0
 	for rep := 0; rep < reps; rep++ {
 		e := c02Engine(c, root)
+		nonce := fmt.Sprintf("n%d", atomic.AddInt64(&c02Nonce, 1))
 		var wg sync.WaitGroup
 		start := make(chan struct{})
 		errs := make(chan error, len(c.Calls)+1)
@@ -195,7 +207,7 @@ func runC02(c C02Case) (int, error) {
 					if call.Op == "loadChurn" {
 						// these files are removed and recreated by the harness while the workload runs:
 						// the result legitimately varies, only panics, races and fatal errors count
-						got := c02Do(e, C02Call{Op: "load", Name: call.Name, V: call.V})
+						got := c02Do(e, C02Call{Op: "load", Name: call.Name, V: call.V}, nonce)
 						mu.Lock()
 						active--
 						mu.Unlock()
@@ -205,7 +217,7 @@ func runC02(c C02Case) (int, error) {
 						}
 						continue
 					}
-					got := c02Do(e, call)
+					got := c02Do(e, call, nonce)
 					mu.Lock()
 					active--
 					mu.Unlock()
@@ -280,11 +292,14 @@ func genC02(t *rapid.T) C02Case {
 				}
 			case 7, 8:
 				call.Op = "parse"
-				call.Src = fmt.Sprintf("P%d.%d[{%% for q in [1,2] %%}{{ q + v }}{%% endfor %%}{%% if v > 4 %%}hi{%% else %%}lo{%% endif %%}]%s", gi, i, strings.Repeat("x", rapid.SampledFrom([]int{0, 50, 5000}).Draw(t, "plen")))
+				// names never seen before by this process (u<goroutine>_<call>_<draw>): parsing enters them into
+				// whatever global tables the tokenizers keep, also above 4096 bytes
+				fresh := fmt.Sprintf("u%d_%d_%d_NONCE", gi, i, rapid.IntRange(0, 1<<30).Draw(t, "fresh"))
+				call.Src = fmt.Sprintf("P%d.%d[{%% for q in [1,2] %%}{{ q + v }}{%% endfor %%}{%% if v > 4 %%}hi{%% else %%}lo{%% endif %%}{{ v }}{{ %s }}{{ %s_b }}{{ s|e }}]%s", gi, i, fresh, fresh, strings.Repeat("x", rapid.SampledFrom([]int{0, 50, 5000}).Draw(t, "plen")))
 			default:
 				call.Op = "registerRender"
 				call.Name = fmt.Sprintf("priv_%d_%d", gi, i)
-				call.Src = fmt.Sprintf("R%d.%d<{{ v }}>{%% include 'mleaf' with {'w': v} %%}", gi, i)
+				call.Src = fmt.Sprintf("R%d.%d<{{ v }}>{%% include 'mleaf' with {'w': v} %%}{{ r%d_%d_%d_NONCE }}%s", gi, i, gi, i, rapid.IntRange(0, 1<<30).Draw(t, "freshr"), strings.Repeat("y", rapid.SampledFrom([]int{0, 4200}).Draw(t, "rlen")))
 			}
 			calls = append(calls, call)
 		}
@@ -293,7 +308,7 @@ func genC02(t *rapid.T) C02Case {
 	return c
 }
 
-const c02Rule = "workloads on one shared engine with a temp-dir FileSystemLoader (2-3 directories whose templates extend ../shared/base and include/import ./part, ./macros, ./leaf — the same relative names resolving to different files per directory) and an ArrayLoader (inheritance with parent(), include-with, macros, a template above 4096 bytes); cache on / off / auto-reload; 2-16 goroutines with 3-12 (thorough 40) calls each out of Render, RenderTo, Load+Render, ParseTemplate+Render, RegisterString+Render of goroutine-private names; GOMAXPROCS 2/4/16/default and optional yields; each workload repeated 3 (thorough 10) times on fresh engines, so first loads are concurrent and uncached; built with -race. non-trivial = at least two calls overlapped in time on the shared engine (measured); distinct by workload"
+const c02Rule = "workloads on one shared engine with a temp-dir FileSystemLoader (2-3 directories whose templates extend ../shared/base and include/import ./part, ./macros, ./leaf — the same relative names resolving to different files per directory) and an ArrayLoader (inheritance with parent(), include-with, macros, a template above 4096 bytes, escaping of strings full of special characters); parsed and registered sources (below and above 4096 bytes) print identifiers the process has never seen; cache on / off / auto-reload; 2-16 goroutines with 3-12 (thorough 40) calls each out of Render, RenderTo, Load+Render, ParseTemplate+Render, RegisterString+Render of goroutine-private names; GOMAXPROCS 2/4/16/default and optional yields; each workload repeated 3 (thorough 10) times on fresh engines, so first loads are concurrent and uncached; built with -race. non-trivial = at least two calls overlapped in time on the shared engine (measured); distinct by workload"
 
 func TestC02Concurrent(t *testing.T) {
 	r := NewRec(t, "C02", c02Rule)
